@@ -39,7 +39,7 @@ ASSUMPTIONS = [
 REACH = {t: ["versions_11", "cur_below", "cur_equal", "cur_above", "cur_unreadable", "override_default",
              "override_nondefault", "disabled_default", "disabled_nondefault", "rejected_then_accepted",
              "buffer_count_written", "buffer_count_overridden", "capacity_kept", "capacity_grown",
-             "value_setting_written", "rejection_status_family_covered"] for t in ("quick", "thorough")}
+             "value_setting_written", "rejection_status_family_covered", "override_equal_to_library_default"] for t in ("quick", "thorough")}
 SHARD_TIMEOUT = {"quick": 900, "thorough": 3600}
 PBC = "CONFIG_PACKET_BUFFER_COUNT"
 
@@ -140,7 +140,7 @@ def run_shard(desc) -> Acc:
             reject_codes = list(range(1, 256))
         rnd.shuffle(reject_codes)
         codes_used = set()
-        forced = ["none", "ov_default", "ov_nondefault", "dis_default", "dis_nondefault", "ov_pbc", "cap_above", "ov_cap"]
+        forced = ["none", "ov_default", "ov_nondefault", "dis_default", "dis_nondefault", "ov_pbc", "cap_above", "ov_cap", "ov_eq"]
         nondefault_keys = sorted(k for k in keys if k not in lib_defaults)
         default_keys = sorted(k for k in keys if k in lib_defaults)
         for it in range(desc["n"]):
@@ -188,6 +188,15 @@ def run_shard(desc) -> Acc:
                     v = valid_value(name, lib_defaults.get(name))
                     if v is not None:
                         overrides[name] = v
+            if mode == "ov_eq" or (mode == "random" and rnd.random() < 0.15):
+                # the user supplies exactly the library's own default value (it is still the user's value)
+                cands_ = [k_ for k_ in default_keys if k_ in keys]
+                if cands_:
+                    k_ = rnd.choice([c_ for c_ in cands_ if is_capacity(c_)] or cands_)
+                    overrides[k_] = lib_defaults[k_]
+                    if current.get(k_) is not None and is_capacity(k_):
+                        current[k_] = min(0xFFFF, lib_defaults[k_] + rnd.choice([0, 1, 30]))
+                    acc.hit("override_equal_to_library_default")
             if mode == "dis_default" and default_keys:
                 overrides = {rnd.choice(default_keys): None}
             if mode == "dis_nondefault" and nondefault_keys:
